@@ -14,6 +14,8 @@ INF = float('inf')
 
 
 def key(t, tag):
+    if isinstance(tag, (list, tuple)):
+        tag = ':'.join(str(x) for x in tag)
     return f'{t}/{tag if tag is not None else "-"}'
 
 
@@ -30,7 +32,7 @@ class Target(Maintainable):
         n = h.dur_calls.get(k, 0)
         h.dur_calls[k] = n + 1
         d = h.table[k][0] + (0.5 * (n % 3) if h.case.get('vary') else 0)
-        h.calls.append(('dur', self.name, tag, h.env.now, d))
+        h.calls.append(('dur', self.name, list(tag) if isinstance(tag, tuple) else tag, h.env.now, d))
         return d
 
     def get_work_order_capacity(self, tag):
@@ -40,10 +42,10 @@ class Target(Maintainable):
         return self.h.table[key(self.name, tag)][2]
 
     def start_work(self, tag):
-        self.h.on_start(self, tag)
+        self.h.on_start(self, list(tag) if isinstance(tag, tuple) else tag)
 
     def end_work(self, tag):
-        self.h.on_end(self, tag)
+        self.h.on_end(self, list(tag) if isinstance(tag, tuple) else tag)
 
 
 class Harness:
@@ -58,6 +60,7 @@ class Harness:
         self.table = case['table']
         self.calls = []
         self.dur_calls = {}
+        self.outstanding = []
         self.queue = []       # reference: accepted, not yet selected  [target, tag, cap]
         self.active = []      # reference: selected (in progress)
         self.util = 0
@@ -73,7 +76,13 @@ class Harness:
         times = [r[0] for r in case['requests']]
         self.c['burst'] = sum(1 for t in set(times) if times.count(t) > 1)
 
+    NOISE_OFF = ('C12.capacity', 'C12.order', 'C12.started-set', 'C12.left-waiting', 'C12.cost')
+
     def bad(self, oracle, msg):
+        # with non-dyadic capacities "fits" is a float comparison whose outcome the statement does not fix: the
+        # reference acceptor is not compared there, only the rounding-independent oracles decide
+        if self.case.get('noise') and oracle in self.NOISE_OFF:
+            return
         raise Violation(oracle, msg)
 
     def ref_scan(self):
@@ -93,8 +102,12 @@ class Harness:
 
     def request(self, tg, tag, ending=None):
         self.c['requests'] += 1
-        exp = not any(q[0] == tg and q[1] == tag for q in self.queue + self.active)
-        got = self.m.create_work_order(self.targets[tg], tag)
+        # identical (target, tag) accepted earlier and not yet finished? (observed, independent of the reference acceptor)
+        exp = (tg, key(tg, tag)) not in self.outstanding
+        # a list tag stands for a tuple built afresh for every request: equal to, but not the same object as, the
+        # tag of an earlier identical request
+        tag_obj = tuple(tag) if isinstance(tag, list) else tag
+        got = self.m.create_work_order(self.targets[tg], tag_obj)
         if ending == (tg, tag):
             exp = got      # the order whose own end hook is running: the statement does not say which side
         if got is not True and got is not False:
@@ -104,6 +117,7 @@ class Harness:
                      f'{[(q[0], q[1]) for q in self.queue]}, in progress {[(a[0], a[1]) for a in self.active]}')
         if got:
             self.c['accepted'] += 1
+            self.outstanding.append((tg, key(tg, tag)))
             self.queue.append((tg, tag, self.table[key(tg, tag)][1]))
             self.ref_scan()
         else:
@@ -153,6 +167,8 @@ class Harness:
             self.c['hook_requests'] += 1
             self.request(t2, g2, ending=(tg, tag))
         self.active_real.remove(ar[0])
+        if (tg, key(tg, tag)) in self.outstanding:
+            self.outstanding.remove((tg, key(tg, tag)))
         self.finished += 1
         # after the hook returns the maintainer frees the capacity and rescans; mirror it
         self.active = [a for a in self.active if not (a[0] == tg and a[1] == tag)]
@@ -161,6 +177,16 @@ class Harness:
 
     def quiescent(self):
         now = self.env.now
+        if not self.active_real:
+            # nothing in progress: no capacity is in use, whatever the arithmetic
+            if self.m.available_capacity != self.m.total_capacity:
+                raise Violation('C12.idle-capacity', f'no order is in progress at {now} but available_capacity is '
+                                f'{self.m.available_capacity!r}, total capacity {self.m.total_capacity!r}')
+            waiting = [(q.target.name, q.tag, q.needed_capacity) for q in self.m._request_queue]
+            for (tg, tag, need) in waiting:
+                if need <= self.capacity:
+                    raise Violation('C12.left-waiting-idle', f'order ({tg},{tag}) needing {need} of {self.capacity} is still '
+                                    f'queued when time advances from {now} although no order is in progress')
         ref = sorted((a[0], str(a[1])) for a in self.active)
         real = sorted((a[0], str(a[1])) for a in self.active_real)
         if ref != real:
